@@ -16,7 +16,13 @@ pub struct Case {
     pub key: u64,
     /// (position, stored length word) of planted magics, applied in order
     pub plants: Vec<(usize, u32)>,
+    /// what the buffer starts with: 0 background, 1 ELF32 / 2 ELF64 file
+    /// identification (kernels are ELF images), 3 "MZ" (PE), 4 a.out-ish word
+    #[serde(default)]
+    pub prefix: u8,
 }
+
+const PREFIXES: [&[u8]; 5] = [&[], &[0x7f, b'E', b'L', b'F', 1, 1, 1, 0], &[0x7f, b'E', b'L', b'F', 2, 1, 1, 0], b"MZ\x90\x00", &[0x07, 0x01, 0x64, 0x00]];
 
 fn contains_magic(b: &[u8], from: usize, to: usize) -> Option<usize> {
     (from..to.saturating_sub(3).max(from)).find(|&i| i + 4 <= b.len() && le32(b, i) == HDR_MAGIC)
@@ -27,6 +33,11 @@ pub fn buffer(c: &Case) -> Vec<u8> {
     // break accidental magics in the background
     while let Some(i) = contains_magic(&v, 0, v.len()) {
         v[i] ^= 0x55;
+    }
+    for (k, b) in PREFIXES[c.prefix as usize % PREFIXES.len()].iter().enumerate() {
+        if k < v.len() {
+            v[k] = *b;
+        }
     }
     for (pos, l) in &c.plants {
         let w = HDR_MAGIC.to_le_bytes();
@@ -146,7 +157,7 @@ fn lens_of_interest() -> Vec<usize> {
 pub fn enumerate(_: &Ctx) -> Box<dyn Iterator<Item = Case>> {
     let mut v = Vec::new();
     for len in lens_of_interest() {
-        v.push(Case { len, key: len as u64, plants: vec![] });
+        v.push(Case { len, key: len as u64, plants: vec![], prefix: 0 });
         // a magic at every interesting position relative to this length and the window
         let mut pos: Vec<usize> = vec![0, 1, 4, 8, 16, 24];
         for d in 0..=16 {
@@ -165,7 +176,19 @@ pub fn enumerate(_: &Ctx) -> Box<dyn Iterator<Item = Case>> {
                 continue;
             }
             for l in [0u32, 16, (len.saturating_sub(p)) as u32, (len.saturating_sub(p) + 1) as u32, 1 << 31, u32::MAX] {
-                v.push(Case { len, key: (len * 31 + p) as u64, plants: vec![(p, l)] });
+                v.push(Case { len, key: (len * 31 + p) as u64, plants: vec![(p, l)], prefix: 0 });
+            }
+        }
+    }
+    // images that start with a file-format identification, the header at
+    // every aligned position of the first 128 bytes
+    for prefix in 1..PREFIXES.len() as u8 {
+        for len in [96usize, 4096, 9000] {
+            for p in (8..128).step_by(8) {
+                if p + 16 <= len {
+                    v.push(Case { len, key: (len + p) as u64, plants: vec![(p, 16)], prefix });
+                    v.push(Case { len, key: (len + p) as u64, plants: vec![(p, (len - p + 1) as u32)], prefix });
+                }
             }
         }
     }
@@ -177,8 +200,9 @@ pub fn strategy(_: &Ctx) -> BoxedStrategy<Case> {
         prop_oneof![2 => 0usize..200, 2 => 8100usize..8300, 3 => 0usize..16384],
         any::<u64>(),
         proptest::collection::vec((any::<u16>(), 0u8..8, any::<u32>(), 0u8..8), 0..=3),
+        prop_oneof![3 => Just(0u8), 2 => 1u8..PREFIXES.len() as u8],
     )
-        .prop_map(|(len, key, raw)| {
+        .prop_map(|(len, key, raw, prefix)| {
             let plants = raw
                 .into_iter()
                 .map(|(p, pmode, l, lmode)| {
@@ -205,7 +229,7 @@ pub fn strategy(_: &Ctx) -> BoxedStrategy<Case> {
                     (pos, lw)
                 })
                 .collect();
-            Case { len, key, plants }
+            Case { len, key, plants, prefix }
         })
         .boxed()
 }
@@ -213,7 +237,7 @@ pub fn strategy(_: &Ctx) -> BoxedStrategy<Case> {
 pub fn subs() -> Vec<Box<dyn Sub>> {
     vec![Box::new(PropSub::<Case> {
         name: "find",
-        rule: "8-aligned buffers ending at a PROT_NONE page, marker background with accidental magics broken, 0..=3 planted magics. Enumerated: every length 0..=96 and 8150..=8230 x magic positions {0,1,4,8,16,24, len-16..len, 8192-16..8192+16} x stored length {0, 16, exactly to the end, end+1, 2^31, 2^32-1}; generated: lengths to 16 KiB, aligned/misaligned/straddling positions, random lengths. Oracle: first magic inside min(len,8192) bytes decides: none => Ok(None); misaligned or length word/body outside the buffer => some Err; else exactly buffer[i..i+L] and index i; panic or fault is a violation. Non-trivial = a magic is present or the buffer is shorter than 8192; distinct by buffer hash",
+        rule: "8-aligned buffers ending at a PROT_NONE page, marker background with accidental magics broken, 0..=3 planted magics, optionally starting with an ELF32/ELF64/PE/a.out file identification. Enumerated: for each identification a header at every aligned position of the first 128 bytes; every length 0..=96 and 8150..=8230 x magic positions {0,1,4,8,16,24, len-16..len, 8192-16..8192+16} x stored length {0, 16, exactly to the end, end+1, 2^31, 2^32-1}; generated: lengths to 16 KiB, aligned/misaligned/straddling positions, random lengths. Oracle: first magic inside min(len,8192) bytes decides: none => Ok(None); misaligned or length word/body outside the buffer => some Err; else exactly buffer[i..i+L] and index i; panic or fault is a violation. Non-trivial = a magic is present or the buffer is shorter than 8192; distinct by buffer hash",
         profiles: Profiles::Both,
         quick: 5000,
         thorough: 200000,
